@@ -345,10 +345,76 @@ fn run_cfg(cfg: &Cfg, st: &mut Stats) -> Result<(), String> {
     Ok(())
 }
 
+/// Scale cases: the same guarantees on heaps far larger than the grid's (a debt-driven call may take
+/// any number of internal steps). kind 0: stop-the-world collect_debt, 1: stop-the-world cycle_debt,
+/// 2: default pacing collect_debt pays its debt, 3: default pacing, collect_debt after every burst of 1000.
+fn scale_case(kind: u8, n: usize) -> Result<(), String> {
+    let mut arena = Arena::<Rootable![Vec<Gc<'_, u64>>]>::new(|_| vec![]);
+    let m = arena.metrics().clone();
+    let fill = |arena: &mut Arena<Rootable![Vec<Gc<'_, u64>>]>, from: usize, to: usize| {
+        arena.mutate_root(|mc, root| {
+            for i in from..to {
+                root.push(Gc::new(mc, i as u64));
+                Gc::new(mc, 0u64); // garbage
+            }
+        });
+    };
+    match kind {
+        0 | 1 => {
+            fill(&mut arena, 0, n);
+            m.set_pacing(Pacing::STOP_THE_WORLD);
+            if !(m.allocation_debt() > 0.0) {
+                return Err(format!("no debt after {} allocations", 2 * n));
+            }
+            if kind == 0 {
+                arena.collect_debt();
+            } else {
+                arena.cycle_debt();
+            }
+            if arena.collection_phase() != P::Sleeping {
+                return Err(format!("stop-the-world pacing, {} allocations, positive debt: the call returned in phase {:?} with {} allocations left", 2 * n, arena.collection_phase(), m.total_gc_count()));
+            }
+            if m.total_gc_count() != n {
+                return Err(format!("stop-the-world cycle left {} allocations, {n} are reachable", m.total_gc_count()));
+            }
+        }
+        2 => {
+            fill(&mut arena, 0, n);
+            arena.collect_debt();
+            if m.allocation_debt() != 0.0 {
+                return Err(format!("collect_debt on a heap of {} allocations returned with debt {} (phase {:?})", 2 * n, m.allocation_debt(), arena.collection_phase()));
+            }
+        }
+        _ => {
+            let mut done = 0;
+            while done < n {
+                fill(&mut arena, done, done + 1000);
+                done += 1000;
+                arena.collect_debt();
+                if m.allocation_debt() != 0.0 {
+                    return Err(format!("collect_debt returned with debt {} after {} allocations (phase {:?})", m.allocation_debt(), 2 * done, arena.collection_phase()));
+                }
+            }
+        }
+    }
+    Ok(())
+}
+
 pub fn run(thorough: bool, only: Option<&str>) -> GridOut {
     let mut cfgs: Vec<Cfg> = vec![];
+    let mut scale: Vec<(String, u8, usize)> = vec![];
+    for &n in if thorough { &[100_000usize, 400_000][..] } else { &[100_000usize][..] } {
+        for kind in 0..4u8 {
+            scale.push((format!("scale/kind{kind}/n{n}"), kind, n));
+        }
+    }
     if let Some(id) = only {
-        cfgs.push(Cfg::parse(id).expect("case id"));
+        if id.starts_with("scale/") {
+            scale.retain(|c| c.0 == id);
+        } else {
+            scale.clear();
+            cfgs.push(Cfg::parse(id).expect("case id"));
+        }
     } else {
         let vals: &[f64] = if thorough { &[0.0, 0.05, 0.15, 0.3, 0.45, 0.6] } else { &[0.0, 0.05, 0.3, 0.45] };
         let mut pacings: Vec<[f64; 5]> = vec![];
@@ -417,17 +483,24 @@ pub fn run(thorough: bool, only: Option<&str>) -> GridOut {
     });
     let mut v = viol.into_inner().unwrap();
     v.sort();
+    let mut scale_viol: Vec<J> = vec![];
+    for (name, kind, n) in &scale {
+        let r = std::panic::catch_unwind(|| scale_case(*kind, *n)).unwrap_or_else(|p| Err(format!("panic: {}", gcv::wops::panic_msg(&p))));
+        if let Err(e) = r {
+            scale_viol.push(J::obj().with("case", name.as_str()).with("message", e.as_str()));
+        }
+    }
     let st = stats.into_inner().unwrap();
     let nontrivial = cfgs.iter().filter(|c| !c.zero()).count() as u64;
     GridOut {
-        evaluations: cfgs.len() as u64,
+        evaluations: cfgs.len() as u64 + scale.len() as u64,
         nontrivial,
         rule: format!(
-            "full grid: pacing factors from the value set with the three documented path sums < 1 (incl. the all-zero stop-the-world row; plus Pacing::DEFAULT) x (sleep_factor, min_sleep) in {{(0,0),(0.5,4),(1,16),(2,1)}} x workloads {:?} x bursts x drivers {:?} x rounds; non-trivial = configurations with non-zero work factors (incremental pacing)",
+            "full grid: pacing factors from the value set with the three documented path sums < 1 (incl. the all-zero stop-the-world row; plus Pacing::DEFAULT) x (sleep_factor, min_sleep) in {{(0,0),(0.5,4),(1,16),(2,1)}} x workloads {:?} x bursts x drivers {:?} x rounds; plus scale cases (heaps of 2 x 100 000 allocations, thorough also 2 x 400 000: stop-the-world collect_debt / cycle_debt end Sleeping with exactly the reachable half left, default-pacing collect_debt returns with zero debt, also after every burst of 2 000); non-trivial = configurations with non-zero work factors (incremental pacing)",
             WORKLOADS, DRIVERS
         ),
         samples: cfgs.iter().step_by((cfgs.len() / 5).max(1)).take(5).map(|c| J::Str(c.id())).collect(),
-        violations: v.iter().map(|(i, e)| J::obj().with("case", cfgs[*i].id()).with("message", e.as_str())).collect(),
+        violations: v.iter().map(|(i, e)| J::obj().with("case", cfgs[*i].id()).with("message", e.as_str())).chain(scale_viol).collect(),
         extra: J::obj()
             .with("completed_cycles", st.cycles)
             .with("cycles_woken_by_debt_driven_call", st.woken_cycles)
